@@ -281,6 +281,7 @@ func depRules(c *Ctx) {
 	ruleDepGraphStructure(c)
 	ruleAppendAlias(c, "base/dep", "D7-append-alias")
 	ruleCompileSorts(c)
+	ruleConstDepsPairing(c, "D11-constdeps-pairing")
 	c.Floor("D1-map-range", 8)
 	c.Floor("D2-order-taint", 6)
 	c.Floor("D3-stride", 1)
@@ -295,14 +296,16 @@ func init() {
 		{Name: "append-without-dup", File: "base/dep/scope.go", Old: "deps = append(dup(typDeps), valueDeps...)", New: "deps = append(typDeps, valueDeps...)"},
 		{Name: "params-in-throwaway-scope", File: "base/dep/scope.go", Old: "deps := inner.funcSignature(node.Type)", New: "deps := inner.Expr(node.Type)"},
 		{Name: "imports-after-decls", File: "base/dep/sorter.go", Old: "\tdecls := s.popPackages()\n\tif len(decls) == 0 {\n\t\tdecls = s.popImports()\n\t}\n\tif len(decls) == 0 {\n\t\tdecls = s.popDecls()\n\t}", New: "\tdecls := s.popPackages()\n\tif len(decls) == 0 {\n\t\tdecls = s.popDecls()\n\t}\n\tif len(decls) == 0 {\n\t\tdecls = s.popImports()\n\t}"},
-		{Name: "min-select-first-found", File: "base/dep/graph.go", Old: "if ret == nil || decl.Pos < pos {", New: "if ret == nil {"},
+		{Name: "min-select-first-found", File: "base/dep/graph.go", Old: "if ret == nil || decl.Pos < pos {", New: "if ret == nil || pos < 0 {"},
+		{Name: "repeated-const-loses-dependencies", File: "base/dep/scope.go", Old: "\t\t\t\tvalue = defaults.Values[i]\n\t\t\t\tdeps = append(dup(deps), defaults.ValueDeps[i]...)\n\t\t\t}", New: "\t\t\t\tvalue = defaults.Values[i]\n\t\t\t}\n\t\t\tif i < len(node.Values) {\n\t\t\t\tdeps = append(dup(deps), defaults.ValueDeps[i]...)\n\t\t\t}"},
+		{Name: "func-type-params-leak", File: "base/dep/scope.go", Old: "case *ast.BlockStmt, *ast.FuncType, *ast.InterfaceType, *ast.StructType:", New: "case *ast.BlockStmt, *ast.InterfaceType, *ast.StructType:"},
 	}
 	register(&PropDef{
 		ID:    "C17",
 		Title: "The dependency sorter returns a deterministic, source-stable topological order",
 		Explanation: "Decided: D1 every range over a map in base/dep has order-insensitive effects (keyed stores/deletes, counters, minimum selection under a strict order on positions, appends whose slice is sorted before use; callees are summarised, recursion or calls through function values over shared state are reported); " +
 			"D2 every slice whose element order comes from a map iteration (DeclMap.List, RemoveTypeFwd, ...) reaches only len, Map(), element-wise updates or a sort (SortByPos / graph.Sort) before any order-sensitive use, in every function and through every caller; D3 chain-walk stride: a loop that examines a scope while following .Outer advances exactly one link per iteration; " +
-			"D4 parameters and results are declared in the scope in which the body is scanned; D5 binding constructs of Go have a declaring arm in Scope.AstExpr; D6 a forward type declaration drops dependencies only of Type nodes; D7 no append inside a loop aliases a slice declared outside it; D8 phases packages, imports, declarations, statements in that order, each run ending at the first node of another class; D9 the declaration-loop error is raised iff both removal steps return nothing. " +
+			"D4 parameters and results are declared in the scope in which the body is scanned; D5 binding constructs of Go have a declaring arm in Scope.AstExpr; D6 a forward type declaration drops dependencies only of Type nodes; D5b every go/ast node type that owns a FieldList (derived from go/ast's type information: FuncType, InterfaceType, StructType) opens a scope of its own in AstExpr, since scanning a Field declares its names; D11 ConstDeps keeps expressions and their dependencies in step: (Type, TypeDeps) and (Values, ValueDeps) are written together and Values[i] is used exactly where ValueDeps[i] is attached, so an implicitly repeated const expression keeps its dependencies; D7 no append inside a loop aliases a slice declared outside it; D8 phases packages, imports, declarations, statements in that order, each run ending at the first node of another class; D9 the declaration-loop error is raised iff both removal steps return nothing. " +
 			"Not decided: that the order returned is a topological order of the true dependency relation (run-time graph algorithm).",
 		Assumptions: []string{"sort.Slice / sort.Strings as documented", "token.Pos values of distinct declarations are distinct"},
 		Rules:       []func(*Ctx){depRules},
@@ -597,13 +600,15 @@ func init() {
 		ID:    "C03",
 		Title: "Conversions between basic, string and byte/rune slice types match Go",
 		Explanation: "Decided (the structural part): V1 a conversion is compiled only after the admission chain (identical types, same reflect type, nil to nillable, ConvertibleTo) and is otherwise rejected before execution; no conversion closure is created before the chain; Comp.Converter rejects non-convertible pairs first; U/A2 the 17 per-kind conversion closures of Comp.convert are uniform and extract the result with the accessor of their kind; " +
-			"V2 untyped.Lit.Convert has an arm for every basic kind plus Interface and Slice, rejects what no arm converted, and converts the result to exactly the requested reflect type; S1 a conversion to a slice type is never folded into a compile-time constant (every EvalConst / ConstTo(target) / compile-time convert() site of Comp.convert is guarded by target.Kind() != Slice), so []byte(\"abc\") allocates at each execution. The oracle for values is reflect.Value.Convert (trusted to implement Go's conversion). " +
+			"V2 untyped.Lit.Convert has an arm for every basic kind plus Interface and Slice, rejects what no arm converted, and converts the result to exactly the requested reflect type; S1 a conversion to a slice type is never folded into a compile-time constant (every EvalConst / ConstTo(target) / compile-time convert() site of Comp.convert is guarded by target.Kind() != Slice), so []byte(\"abc\") allocates at each execution; V3 every alternative of every admitting clause of the type checker's convertibleTo constrains both the operand's type and the target type (a one-sided alternative admits conversions to arbitrary types); K2 the 64-bit result of constant.Int64Val / Uint64Val is never narrowed (int32, rune, int ...) outside a two-sided range check (integer constant to string). The oracle for values is reflect.Value.Convert (trusted to implement Go's conversion). " +
 			"Not decided: the truth table of ConvertibleTo against the spec, value results, typed-constant overflow.",
 		Assumptions: []string{"reflect.Value.Convert implements Go conversions for the kinds involved", "xreflect.Type.ConvertibleTo"},
 		Rules: []func(*Ctx){func(c *Ctx) {
 			ruleConversionGate(c, "V1-conversion-gate")
 			ruleUntypedConvert(c, "V2-untyped-convert")
 			ruleSliceConversionNotFolded(c, "S1-slice-not-folded")
+			ruleTwoSidedAdmission(c, "V3-two-sided-admission")
+			ruleNoNarrowing(c, "K2-no-narrowing")
 			ruleUniformity(c, "fast", []string{"convert.go"}, "U-uniform")
 			ruleAccessorFiles(c, "fast", []string{"convert.go"}, "A2-accessor")
 			c.Floor("U-uniform", 12)
@@ -612,6 +617,8 @@ func init() {
 			{Name: "gate-falls-through", File: "fast/convert.go", Old: "\t} else {\n\t\tc.Errorf(\"cannot convert %v to %v: %v\", e.Type, t, nodeOpt)\n\t\treturn nil\n\t}", New: "\t} else {\n\t\tc.Warnf(\"cannot convert %v to %v: %v\", e.Type, t, nodeOpt)\n\t}", Canary: true},
 			{Name: "uint16-result-read-as-int", File: "fast/convert.go", Old: "return uint16(val.Uint())", New: "return uint16(val.Int())", Canary: true},
 			{Name: "converter-check-dropped", File: "fast/convert.go", Old: "\tif !tin.ConvertibleTo(tout) {\n\t\tc.Errorf(\"cannot convert from <%v> to <%v>\", tin, tout)\n\t}\n", New: ""},
+			{Name: "integer-converts-to-anything", File: "go/types/conversions.go", Old: "if (isInteger(V) || isBytesOrRunes(Vu)) && isString(T) {", New: "if isInteger(V) || isBytesOrRunes(Vu) && isString(T) {"},
+			{Name: "int-constant-to-string-truncated", File: "base/untyped/lit.go", Old: "ret = string(i)", New: "ret = string(rune(i))"},
 			{Name: "string-to-bytes-folded", File: "fast/convert.go", Old: "\tif e.Const() && t.Kind() != xr.Slice {\n\t\teret.EvalConst(COptKeepUntyped)", New: "\tif e.Const() {\n\t\teret.EvalConst(COptKeepUntyped)", Canary: true},
 			{Name: "untyped-string-converted-to-slice-constant", File: "fast/convert.go", Old: "\t\tif t.Kind() == xr.Slice {\n", New: "\t\tif t.Kind() == xr.Slice && false {\n"},
 			{Name: "untyped-convert-no-exact-type", File: "base/untyped/lit.go", Old: "\tif v.Type() != t.ReflectType() {\n\t\tret = v.Convert(t.ReflectType())\n\t}\n\treturn ret\n}\n\n// EXTENSION", New: "\t_ = v\n\treturn ret\n}\n\n// EXTENSION"},
@@ -621,13 +628,15 @@ func init() {
 		ID:    "C04",
 		Title: "Untyped constant expressions are exact and agree with Go's constant arithmetic",
 		Explanation: "Decided: P1 operator pass-through: BinaryExprUntyped / ShiftUntyped / UnaryExprUntyped hand go/constant the node's own operator (through tokenWithoutAssign) with the operands in order; untyped division truncates (QUO_ASSIGN) exactly when both operands are of Int or Rune kind; && / || compute the matching boolean operation; the compound-assignment token tables pair each X_ASSIGN with X; " +
-			"EX1 exactness: a constant.Value reaches an integer-category result only through exact extraction, never through constant.Float64Val, and every conversion to an integer kind is followed by a convert-back-and-compare overflow / truncation check; K1 every path of every function of base/untyped that uses constant.Int64Val / Uint64Val is enumerated (exact flag and target category concretely) and the first result, undefined when the flag is false, never flows into a result of the function on such a path. " +
+			"EX1 exactness: a constant.Value reaches an integer-category result only through exact extraction, never through constant.Float64Val, and every conversion to an integer kind is followed by a convert-back-and-compare overflow / truncation check; K1 every path of every function of base/untyped that uses constant.Int64Val / Uint64Val is enumerated (exact flag and target category concretely) and the first result, undefined when the flag is false, never flows into a result of the function on such a path; K2 such a 64-bit result is never narrowed outside a two-sided range check; F1 a constant converted to *big.Int / *big.Rat / *big.Float is copied into a fresh local at each execution and the compile-time value never escapes the closure. " +
 			"Not decided: go/constant's arithmetic, precision beyond what go/constant keeps, exactness of *big.Float conversions.",
 		Assumptions: []string{"go/constant implements exact constant arithmetic"},
 		Rules: []func(*Ctx){func(c *Ctx) {
 			ruleUntypedOperators(c, "P1-operator-passthrough")
 			ruleConstantExactness(c, "EX1-exactness")
 			ruleInexactUndefined(c, "K1-inexact-undefined")
+			ruleNoNarrowing(c, "K2-no-narrowing")
+			ruleFreshBigValues(c, "F1-fresh-big")
 		}},
 		Mutants: []Mutant{
 			{Name: "compare-uses-fixed-operator", File: "fast/binary.go", Old: "flag := constant.Compare(x.Val, op, y.Val)", New: "flag := constant.Compare(x.Val, token.EQL, y.Val)", Canary: true},
@@ -635,6 +644,7 @@ func init() {
 			{Name: "binaryop-operands-swapped", File: "fast/binary.go", Old: "zobj := constant.BinaryOp(x.Val, op2, y.Val)", New: "zobj := constant.BinaryOp(y.Val, op2, x.Val)"},
 			{Name: "table-entry-swapped", File: "fast/binary.go", Old: "\ttoken.OR_ASSIGN:      token.OR,\n\ttoken.XOR_ASSIGN:     token.XOR,", New: "\ttoken.OR_ASSIGN:      token.XOR,\n\ttoken.XOR_ASSIGN:     token.OR,"},
 			{Name: "shr-dispatched-as-shl", File: "fast/binary.go", Old: "return c.ShiftUntyped(node, token.SHR, x, y)", New: "return c.ShiftUntyped(node, token.SHL, x, y)"},
+			{Name: "big-rat-constant-shared", File: "fast/literal.go", Old: "\t\t\tvar b big.Rat\n\t\t\tb.Set(a)\n\t\t\treturn xr.ValueOf(&b)", New: "\t\t\tvar b big.Rat\n\t\t\tb.Set(a)\n\t\t\treturn xr.ValueOf(a)"},
 			{Name: "huge-int-to-float-uses-undefined-result", File: "base/untyped/lit.go", Old: "\t\t\tif !exact {\n\t\t\t\t// beyond the range of 64-bit integers: round to the nearest float64\n\t\t\t\tn, exact = constant.Float64Val(src)\n\t\t\t}\n", New: "", Canary: true},
 			{Name: "overflow-check-dropped-for-integers", File: "base/untyped/lit.go", Old: "\t\t\tvback := vto.Convert(t1)\n\t\t\tif src != vback.Interface() {", New: "\t\t\tvback := vto.Convert(t1)\n\t\t\tif false && src != vback.Interface() {"},
 		},
@@ -665,11 +675,12 @@ func init() {
 		ID:    "C18",
 		Title: "Program results do not depend on semantics-neutral interpreter options",
 		Explanation: "Decided: N1 who-may-read: OptCollectDeclarations / OptCollectStatements / OptTrapPanic / OptPanicStackTrace / OptKeepUntyped are referenced only by the enumerated REPL-driver, collector, command-line and result-returning functions (CompileAst, RunExpr, DebugExpr convert a final untyped result to its default type), never by code that compiles or executes programs; " +
-			"N2 effect confinement: every statement controlled by OptDebugger only records the compiler for the debugger (a *Comp that the function never dereferences, or Env.DebugComp), and Env.DebugComp is read only by the single-step hook and the debugger package. " +
+			"N2 effect confinement: every statement controlled by OptDebugger only records the compiler for the debugger (a *Comp that the function never dereferences, or Env.DebugComp), and Env.DebugComp is read only by the single-step hook and the debugger package; N3 the fields of base.Globals that the declaration collector writes (PackagePath, Imports, Declarations, Statements: derived from CollectNode) are read only by the file writer and the command-line driver (one reviewed exception). " +
 			"Not decided: the generics switch (a package-level mode consulted by the parser and type checker).",
 		Assumptions: []string{"option constants are referenced by name (no arithmetic on raw bit values)"},
-		Rules:       []func(*Ctx){ruleOptionConfinement},
+		Rules:       []func(*Ctx){ruleOptionConfinement, ruleCollectorState},
 		Mutants: []Mutant{
+			{Name: "field-lookup-uses-collected-package-name", File: "fast/selector.go", Old: "return t.FieldByName(name, c.FileComp().Path)", New: "return t.FieldByName(name, c.Globals.PackagePath)"},
 			{Name: "debugger-option-changes-compilation", File: "fast/func1ret0.go", Old: "\tif c.Globals.Options&base.OptDebugger != 0 {\n\t\tdebugC = c\n\t}", New: "\tif c.Globals.Options&base.OptDebugger != 0 {\n\t\tdebugC = c\n\t\tc.UpCost++\n\t}", Canary: true},
 			{Name: "executor-reads-trap-panic", File: "fast/code.go", Old: "\tcaller := run.CurrEnv\n\t// restore g.IsDefer", New: "\tif run.Options&base.OptTrapPanic != 0 {\n\t\trun.Signals.Sync = base.SigNone\n\t}\n\tcaller := run.CurrEnv\n\t// restore g.IsDefer", Canary: true},
 			{Name: "compiler-reads-debugcomp", File: "fast/compile.go", Old: "\tenv.DebugComp = debugComp\n\tcaller := run.CurrEnv", New: "\tenv.DebugComp = debugComp\n\tif outer.DebugComp != nil {\n\t\tenv.Caller = nil\n\t}\n\tcaller := run.CurrEnv"},
